@@ -31,7 +31,8 @@ ASSUMPTIONS = [
     "argument-wise subtyping is only asserted for equal arity",
 ]
 REPORT_COUNTERS = ["calls", "calls_passed_generic", "calls_passed_nested", "calls_any", "calls_passed_generic_with_any_argument", "refinement_pair_programs", "two_type_methods_applicable",
-                   "unique_best_checked", "pos_subtler", "pos_plain_type", "strict_first_posonly", "strict_first_names", "resolve_checked"]
+                   "unique_best_checked", "pos_subtler", "pos_plain_type", "strict_first_posonly", "strict_first_names", "resolve_checked",
+                   "calls_repeated_through_recurse", "batches_sibling_built_first", "batches_sibling_built_last"]
 
 
 def plan(tier):
@@ -39,7 +40,8 @@ def plan(tier):
     return {"cases": n, "params": {}, "timeout_s": 900 if tier == "quick" else 3600,
             "min": {"calls": 20_000, "calls_passed_nested": 1_000, "two_type_methods_applicable": 500,
                     "pos_subtler": 100, "pos_plain_type": 100, "calls_any": 200,
-                    "calls_passed_generic_with_any_argument": 300, "refinement_pair_programs": 100}}
+                    "calls_passed_generic_with_any_argument": 300, "refinement_pair_programs": 100,
+                    "calls_repeated_through_recurse": 5_000, "batches_sibling_built_last": 200}}
 
 
 def _gen_alias(rng, classes, depth=0, any_ok=False):
@@ -190,6 +192,7 @@ def check_case(spec, res):
     o = Ovld()
     files = []
     import typing
+    ns = {}          # the methods of a case - and of a second, unrelated function - share one module namespace
     for m in spec["methods"]:
         over = {}
         if spec.get("string_annotations"):
@@ -203,7 +206,7 @@ def check_case(spec, res):
                 elif isinstance(t, list) and t[0] == "Ty" and isinstance(t[1], str):
                     over[p["n"]] = f"type[{t[1]}]"
         fn, f = make_method(m, env, vf, [f"return {m['mid']}"], tag="c14", ann_override=over or None,
-                            extra_globals={**env.names, "typing": typing} if over else None)
+                            extra_globals={**env.names, "typing": typing} if over else None, shared_ns=ns)
         o.register(fn)
         files.append(f)
     if spec.get("string_annotations"):
@@ -217,6 +220,7 @@ def check_case(spec, res):
         res.count("pos_subtler" if pos in aa.complex_transforms else "pos_plain_type")
     if spec.get("refine"):
         res.count("refinement_pair_programs")
+    ran_plain = []     # (values, method id) of the calls without keyword that ran
     for ci, args in enumerate(spec["calls"]):
         vals = [T.value(a, env) for a in args]
         kwx = (spec.get("kwcalls") or {}).get(str(ci))
@@ -266,6 +270,8 @@ def check_case(spec, res):
             res.violation("resolve-vs-call", [out[0], rh[0]], spec,
                           observed={"call": callname, "call_outcome": [str(x) for x in out[:2]], "resolve": [str(x) for x in rh[:2]]},
                           acceptable="resolve() names the method the call runs")
+        if out[0] == "ran" and kwx is None and out[1]:
+            ran_plain.append((vals, out[1][0]))
         if out[0] == "ran":
             got = out[1][0] if out[1] else None
             if got not in app_ids:
@@ -319,4 +325,50 @@ def check_case(spec, res):
                                   acceptable={"best": best, "applicable": app_ids})
             else:
                 res.skip_unspec()
+    _batch(spec, res, env, vf, o, ns, files, ran_plain)
     forget(files)
+
+
+def _batch(spec, res, env, vf, o, ns, files, ran_plain):
+    """The same calls made from inside a method of the function (recurse on the elements of two tuples) enter the
+    same methods as the direct calls did - also when an unrelated function on ordinary values, whose methods use
+    recurse as well, lives in the same module and was built before or after."""
+    if not ran_plain:
+        return
+    m0 = spec["methods"][0]
+    walker = {"mid": 900, "pos": [dict(p, t="tuple") for p in m0["pos"]]}
+    a, b = (p["n"] for p in walker["pos"])
+    sib = Ovld()
+    sfiles = []
+    for mid, t, body in ((950, "list", "return [recurse(e) for e in a]"), (951, "object", "return 951")):
+        fn, f = make_method({"mid": mid, "pos": [{"n": "a", "t": t}]}, env, vf, [body], tag="c14s", shared_ns=ns, name="g")
+        sib.register(fn)
+        sfiles.append(f)
+    first = (len(ran_plain) + len(spec["methods"])) % 2 == 0
+    if first:
+        sib.compile()
+    fn, f = make_method(walker, env, vf, [f"return tuple(recurse(x_, y_) for x_, y_ in zip({a}, {b}))"], tag="c14", shared_ns=ns)
+    files.append(f)
+    try:
+        o.register(fn)
+        o.compile()
+    except TypeError:
+        forget(sfiles)
+        return              # naming rule (positions named differently by the methods of the case)
+    if not first:
+        sib.compile()
+    out0 = outcome(lambda: sib([1, "x", [2.5]]), vf)
+    if out0[0] != "ran" or out0[2] != [951, 951, [951]]:
+        raise AssertionError(f"sibling function: {out0[:3]}")
+    res.count("batches_sibling_built_first" if first else "batches_sibling_built_last")
+    xs = tuple(v[0] for v, _ in ran_plain)
+    ys = tuple(v[1] for v, _ in ran_plain)
+    out = outcome(lambda: o(xs, ys), vf)
+    res.ev()
+    res.count("calls_repeated_through_recurse", len(ran_plain))
+    exp = tuple(m for _, m in ran_plain)
+    if out[0] != "ran" or out[2] != exp:
+        res.violation("recurse-vs-direct-call", [out[0]], spec,
+                      observed={"direct": list(exp), "through_recurse": [str(x) for x in out[:3]], "sibling_built_first": first},
+                      acceptable="recurse on the same arguments enters the methods the direct calls entered")
+    forget(sfiles)
